@@ -94,3 +94,6 @@ func VerifConnWithFrames(payloads [][]byte) *Conn {
 	close(ch)
 	return &Conn{dataFrames: ch}
 }
+
+// VerifMaxFrame is the MAXFRAME value the port learned (or defaulted to) during registration.
+func VerifMaxFrame(p *Port) int { return p.maxFrame }
